@@ -12,7 +12,7 @@ RULE = ("refit:<class>: for every fit-able registry class Hypothesis draws a con
         "dimensions, label sets or vocabularies, and a history of fits (data set index, NumPy global seed); outputs are requested between "
         "fits so that caches exist; in a third of the cases the instance is also given a second configuration (set_params with all top-level parameters) between fits. Invariant after every fit: the instance's fingerprint (public outputs on a probe batch + documented "
         "fitted attributes) equals that of clone(instance).fit(same data) under the same seed (exact, one thread), and a second fresh "
-        "clone fitted under the same seed agrees too. random-state: KMeansL1L2 with an int random_state (documented as making it "
+        "clone fitted under the same seed agrees too; then another clone is fitted on another data set of the pool under another seed and the instance must still answer as before. random-state: KMeansL1L2 with an int random_state (documented as making it "
         "deterministic) gives the same model under two different global seeds; the same comparison for PermutationReciprocalTransformer, "
         "PiecewiseClassifier and ConstraintKMeans is reported as a label only. interpreters: 3-5 fits (string-labelled permutations and classifiers, frames of categories, "
         "corpora, any registry class) are run in two fresh interpreters started with different PYTHONHASHSEED values and must give bit-identical fingerprints. Non-trivial: a history with >=2 fits on data sets that "
@@ -66,6 +66,18 @@ def check_refit(case):
         X2, y2 = _fit(entry, fresh2, data, seed)
         d2 = R.same_fingerprint(ref, _fp(entry, fresh2, data, X2, y2, seed), exact=entry.exact)
         require(d2 is None, "same-seed:two-fits-differ", "two fresh clones fitted on the same data under the same NumPy seed differ: %s" % d2, f2)
+        # another instance of the same class fitted on OTHER data under another seed (two models alive in one process): what this
+        # instance answers is its own business - module- or class-level state shared between instances shows here
+        j = (i + 1) % len(case["datasets"])
+        other = clone(inst)
+        try:
+            _fit(entry, other, case["datasets"][j], seed + 1)
+            _fp(entry, other, case["datasets"][j], *R.materialize(case["datasets"][j])[:2], seed + 1)
+        except Exception:  # noqa: BLE001 - the other data set may not suit this configuration: only the effect on `inst` matters
+            pass
+        again = _fp(entry, inst, data, X, y, seed)
+        d3 = R.same_fingerprint(got, again, exact=entry.exact)
+        require(d3 is None, "instance-disturbed-by-another-instance", "after ANOTHER instance of the class was fitted on other data, this fitted instance answers differently: %s" % d3, f2)
         if prev is not None and prev != i:
             differing = True
         prev = i
